@@ -24,13 +24,15 @@ Record rcfg := mkCfg {
   c_needver : bool;    (* rows are read only when the version row is set *)
   c_late : bool;       (* the pending-changes counter is cleared by store() after a successful write
                           (true, the code as pinned) / by Prepare before it calls store() (false) *)
+  c_skipdel : bool;    (* load01 skips a row carrying the deleted mark (ID 0) before any other check (true, the
+                          code as pinned) / takes it into the name map as name -> 0 (false) *)
   c_atomic : bool      (* Rename writes its rows with ONE storage call (the PutBatch of store(); true, the
                           code as pinned) / with two independent Puts, both always attempted (false) *)
 }.
 
-Definition cfg_q := mkCfg reg_qname_sys_last reg_qname_max true reg_qname_needs_version reg_qname_changes_cleared_by_store reg_rename_atomic.
-Definition cfg_c := mkCfg reg_cont_sys_last reg_cont_max true reg_cont_needs_version reg_cont_changes_cleared_by_store true.
-Definition cfg_s := mkCfg (reg_first_singleton - 1) reg_max_singleton false reg_single_needs_version reg_single_changes_cleared_by_store true.
+Definition cfg_q := mkCfg reg_qname_sys_last reg_qname_max true reg_qname_needs_version reg_qname_changes_cleared_by_store reg_qname_skips_deleted reg_rename_atomic.
+Definition cfg_c := mkCfg reg_cont_sys_last reg_cont_max true reg_cont_needs_version reg_cont_changes_cleared_by_store reg_cont_skips_deleted true.
+Definition cfg_s := mkCfg (reg_first_singleton - 1) reg_max_singleton false reg_single_needs_version reg_single_changes_cleared_by_store true true.
 
 Definition rows := list (bytes * N).        (* sorted by name: the partition of the system view *)
 Record pers := mkPers { p_rows : rows; p_ver : N }.   (* p_ver: 0 = no version row, 1 = ver01 *)
@@ -61,7 +63,7 @@ Fixpoint load_rows (c : rcfg) (rs : rows) (m : mem) : mem * bool :=
   match rs with
   | [] => (m, true)
   | (n, id) :: r =>
-      if skip c id then load_rows c r m
+      if skip c id then (if c_skipdel c then load_rows c r m else load_rows c r (add m n id))
       else if c_tomb c && (id <=? c_sys_last c) then (m, false)
       else load_rows c r (add m n id)
   end.
@@ -288,7 +290,11 @@ Record dump := mkDump { d_q : rows; d_c : rows; d_s : rows; d_vq : N; d_vc : N; 
 Inductive dres := DName (n : bytes) | DErr | DAbsent.
 (* records: RPut key name ok = PutJSON of a document of type name under record id key;
    RGet key r = Records.Get(key) and the type name it was decoded with *)
-Inductive recop := RPut (key : N) (name : bytes) (ok : bool) | RGet (key : N) (r : dres).
+Inductive recop :=
+| RPut (key : N) (name : bytes) (ok : bool) | RGet (key : N) (r : dres)
+(* RPutC key rname cont ok = PutJSON of a record of type rname in container cont; RGetC key r =
+   Records.Get(key) and the container name it was decoded with (the row stores the container ID) *)
+| RPutC (key : N) (rname cont : bytes) (ok : bool) | RGetC (key : N) (r : dres).
 
 Inductive step :=
 | TStart (retry : bool) (qn cn sn docs : list bytes) (f : fault) (code : N) (d : dump)
@@ -318,17 +324,26 @@ Fixpoint assoc {T} (k : N) (l : list (N * T)) : option T :=
 Definition mem_b (n : bytes) (l : list bytes) : bool := existsb (lex_eqb n) l.
 
 (* stored records: record key -> QNameID written in the row header *)
-Fixpoint recs_agree (mq : mem) (qn docs : list bytes) (stored : list (N * N)) (ops : list recop) : bool * list (N * N) :=
+(* Containers.Container(id): the ID->name map of the containers registry; ID 0 is the built-in
+   empty container name (collectSys runs after load, so it always wins) *)
+Definition cdecode (mc : mem) (id : N) : option bytes :=
+  if id =? 0 then Some [] else id_name (m_ids mc) id.
+
+(* stored rows: document key -> QNameID of the row header; record key -> (QNameID, type name it
+   was written with, container ID) *)
+Record rstore := mkRst { rs_docs : list (N * N); rs_recs : list (N * (N * bytes * N)) }.
+
+Fixpoint recs_agree (mq mc : mem) (qn docs : list bytes) (stored : rstore) (ops : list recop) : bool * rstore :=
   match ops with
   | [] => (true, stored)
   | RPut key name ok :: r =>
       match sm_get name (m_names mq) with
-      | Some id => if ok then recs_agree mq qn docs ((key, id) :: stored) r else (false, stored)
-      | None => if ok then (false, stored) else recs_agree mq qn docs stored r
+      | Some id => if ok then recs_agree mq mc qn docs (mkRst ((key, id) :: rs_docs stored) (rs_recs stored)) r else (false, stored)
+      | None => if ok then (false, stored) else recs_agree mq mc qn docs stored r
       end
   | RGet key res :: r =>
       let good :=
-        match assoc key stored with
+        match assoc key (rs_docs stored) with
         | None => match res with DAbsent => true | _ => false end
         | Some id =>
             match decode mq qn id with
@@ -339,12 +354,36 @@ Fixpoint recs_agree (mq : mem) (qn docs : list bytes) (stored : list (N * N)) (o
                 if mem_b n docs then match res with DName x => lex_eqb x n | _ => false end else true
             end
         end in
-      if good then recs_agree mq qn docs stored r else (false, stored)
+      if good then recs_agree mq mc qn docs stored r else (false, stored)
+  | RPutC key rname cont ok :: r =>
+      match sm_get rname (m_names mq), sm_get cont (m_names mc) with
+      | Some qid, Some cid =>
+          if ok then recs_agree mq mc qn docs (mkRst (rs_docs stored) ((key, (qid, rname, cid)) :: rs_recs stored)) r
+          else (false, stored)
+      | _, _ => if ok then (false, stored) else recs_agree mq mc qn docs stored r
+      end
+  | RGetC key res :: r =>
+      let good :=
+        match assoc key (rs_recs stored) with
+        | None => match res with DAbsent => true | _ => false end
+        | Some (qid, rname, cid) =>
+            match decode mq qn qid with
+            | None => match res with DErr => true | _ => false end
+            | Some n =>
+                if lex_eqb n rname then
+                  match cdecode mc cid with
+                  | Some cn => match res with DName x => lex_eqb x cn | _ => false end
+                  | None => match res with DErr => true | _ => false end
+                  end
+                else true   (* decoded as another type: not modelled *)
+            end
+        end in
+      if good then recs_agree mq mc qn docs stored r else (false, stored)
   end.
 
 Definition code_of (o : sout) : N := match o with SOk _ _ _ => 0 | SErr e => e end.
 
-Fixpoint agrees_from (st : state) (stored : list (N * N)) (t : list step) : bool :=
+Fixpoint agrees_from (st : state) (stored : rstore) (t : list step) : bool :=
   match t with
   | [] => true
   | TStart retry qn cn sn docs f code d qids sids recs :: rest =>
@@ -353,7 +392,7 @@ Fixpoint agrees_from (st : state) (stored : list (N * N)) (t : list step) : bool
       match o with
       | SOk mq mc ms =>
           lookups_agree mq qids && lookups_agree ms sids &&
-          (let '(ok, stored') := recs_agree mq qn docs stored recs in ok && agrees_from st' stored' rest)
+          (let '(ok, stored') := recs_agree mq mc qn docs stored recs in ok && agrees_from st' stored' rest)
       | SErr _ => agrees_from st' stored rest
       end
   | TRename old new f code d :: rest =>
@@ -361,14 +400,15 @@ Fixpoint agrees_from (st : state) (stored : list (N * N)) (t : list step) : bool
       (code_of o =? code) && dump_agrees (fst st') d && agrees_from st' stored rest
   end.
 
-Definition agrees (t : trace) : bool := agrees_from (sys_of (t_init t), proc0) [] (t_steps t).
+Definition agrees (t : trace) : bool := agrees_from (sys_of (t_init t), proc0) (mkRst [] []) (t_steps t).
 
 (* ---------- the oracle: the property judged on the observed outputs only ----------
    After every successful start (of a new process or an in-process retry):
    - every name of the schema has an ID, outside the reserved range and below the limit;
    - no two names of the schema share an ID;
    - a name that had an ID at an earlier successful start still has that ID, unless it was
-     renamed away by a successful Rename in between;
+     renamed away by a successful Rename in between; a Rename moves the IDs of the old name
+     (QNameID and, for a singleton, the singleton ID) to the new name;
    - a Rename that reported a storage failure took effect completely or not at all;
    - a record written under a name that is still in the schema (and was not renamed) is decoded
      with that name; if the name has left the schema it is never decoded with another name.
@@ -417,41 +457,63 @@ Definition reg_ok (lo hi : N) (known : list (bytes * N)) (get : bytes -> option 
   | None => false
   end.
 
-Fixpoint recs_ok (qn : list bytes) (written : list (N * bytes)) (ops : list recop) : bool * list (N * bytes) :=
+(* written: document key -> type name; record key -> container name *)
+Record wstore := mkWst { w_docs : list (N * bytes); w_recs : list (N * bytes) }.
+
+Fixpoint recs_ok (qn cn : list bytes) (written : wstore) (ops : list recop) : bool * wstore :=
   match ops with
   | [] => (true, written)
-  | RPut key name ok :: r => recs_ok qn (if ok then (key, name) :: written else written) r
+  | RPut key name ok :: r => recs_ok qn cn (if ok then mkWst ((key, name) :: w_docs written) (w_recs written) else written) r
   | RGet key res :: r =>
       let good :=
-        match assoc key written with
+        match assoc key (w_docs written) with
         | None => true
         | Some w =>
             if mem_b w qn then match res with DName x => lex_eqb x w | _ => false end
             else match res with DName x => lex_eqb x w | _ => true end
         end in
-      if good then recs_ok qn written r else (false, written)
+      if good then recs_ok qn cn written r else (false, written)
+  | RPutC key _ cont ok :: r => recs_ok qn cn (if ok then mkWst (w_docs written) ((key, cont) :: w_recs written) else written) r
+  | RGetC key res :: r =>
+      (* the container ID written into the row leads back to the container name while the
+         container is in the schema; afterwards never to another name *)
+      let good :=
+        match assoc key (w_recs written) with
+        | None => true
+        | Some w =>
+            if mem_b w cn then match res with DName x => lex_eqb x w | _ => false end
+            else match res with DName x => lex_eqb x w | _ => true end
+        end in
+      if good then recs_ok qn cn written r else (false, written)
   end.
 
 (* a Rename that reported a storage failure must have taken effect completely or not at all:
    (old, new, the ID old had) waits for the next successful start, where the observed lookups of
    the two names decide which; anything else (both names with the ID, or neither) is a violation *)
 Record ost := mkOst { o_kq : list (bytes * N); o_kc : list (bytes * N); o_ks : list (bytes * N);
-                      o_written : list (N * bytes); o_pend : list (bytes * bytes * N) }.
+                      o_written : wstore; o_pend : list (bytes * bytes * N) }.
 
 Definition has (g : bytes -> option N) (n : bytes) (id : N) : bool :=
   match g n with Some x => x =? id | None => false end.
 
-Definition drop_written (old : bytes) (w : list (N * bytes)) : list (N * bytes) :=
-  filter (fun e => negb (lex_eqb old (snd e))) w.
+Definition drop_written (old : bytes) (w : wstore) : wstore :=
+  mkWst (filter (fun e => negb (lex_eqb old (snd e))) (w_docs w)) (w_recs w).
+
+(* a Rename moves the ID: what was known for the old name is from now on expected of the new one *)
+Definition move (old new : bytes) (known : list (bytes * N)) : list (bytes * N) :=
+  match lookup old known with
+  | Some id => (new, id) :: forget new (forget old known)
+  | None => forget old known
+  end.
 
 Fixpoint resolve (g : bytes -> option N) (pend : list (bytes * bytes * N))
-         (kq : list (bytes * N)) (w : list (N * bytes)) : bool * list (bytes * N) * list (N * bytes) :=
+         (kq ks : list (bytes * N)) (w : wstore) : bool * list (bytes * N) * list (bytes * N) * wstore :=
   match pend with
-  | [] => (true, kq, w)
+  | [] => (true, kq, ks, w)
   | (old, new, id) :: r =>
-      if has g new id && negb (has g old id) then resolve g r (forget old kq) (drop_written old w)
-      else if has g old id && negb (has g new id) then resolve g r kq w
-      else (false, kq, w)
+      if has g new id && negb (has g old id) then resolve g r (move old new kq) (move old new ks) (drop_written old w)
+      else if has g old id && negb (has g new id) then resolve g r kq ks w
+      else (false, kq, ks, w)
   end.
 
 Definition touches (a b : bytes) (e : bytes * bytes * N) : bool :=
@@ -467,20 +529,20 @@ Fixpoint satisfies_from (o : ost) (t : list step) : bool :=
         let gs := fun n => lookup_o n sids in
         (* only a new process reads the storage afresh: an in-process retry may answer from objects
            loaded before the Rename *)
-        let '(rok, kq, written) := if retry then (true, o_kq o, o_written o)
-                                   else resolve gq (o_pend o) (o_kq o) (o_written o) in
+        let '(rok, kq, ks, written) := if retry then (true, o_kq o, o_ks o, o_written o)
+                                       else resolve gq (o_pend o) (o_kq o) (o_ks o) (o_written o) in
         rok &&
         reg_ok reg_qname_sys_last reg_qname_max kq gq qn &&
         reg_ok reg_cont_sys_last reg_cont_max (o_kc o) gc cn &&
-        reg_ok (reg_first_singleton - 1) reg_max_singleton (o_ks o) gs sn &&
-        (let '(ok, written') := recs_ok qn written recs in
+        reg_ok (reg_first_singleton - 1) reg_max_singleton ks gs sn &&
+        (let '(ok, written') := recs_ok qn cn written recs in
          ok && satisfies_from (mkOst (learn kq gq (dedup qn)) (learn (o_kc o) gc (dedup cn))
-                                     (learn (o_ks o) gs (dedup sn)) written' (if retry then o_pend o else [])) rest)
+                                     (learn ks gs (dedup sn)) written' (if retry then o_pend o else [])) rest)
       else satisfies_from o rest
   | TRename old new f code d :: rest =>
       let pend := filter (fun e => negb (touches old new e)) (o_pend o) in
       if code =? 0 then
-        satisfies_from (mkOst (forget old (o_kq o)) (o_kc o) (o_ks o) (drop_written old (o_written o)) pend) rest
+        satisfies_from (mkOst (move old new (o_kq o)) (o_kc o) (move old new (o_ks o)) (drop_written old (o_written o)) pend) rest
       else if code =? 1 then
         match lookup old (o_kq o) with
         | Some id => satisfies_from (mkOst (o_kq o) (o_kc o) (o_ks o) (o_written o) ((old, new, id) :: pend)) rest
@@ -489,4 +551,4 @@ Fixpoint satisfies_from (o : ost) (t : list step) : bool :=
       else satisfies_from o rest
   end.
 
-Definition satisfies (t : trace) : bool := satisfies_from (mkOst [] [] [] [] []) (t_steps t).
+Definition satisfies (t : trace) : bool := satisfies_from (mkOst [] [] [] (mkWst [] []) []) (t_steps t).
